@@ -95,6 +95,8 @@ func genC15(e *emitter, tier string, seed int64) {
 		// an error object must be a fresh one in every run (its chain of call sites does not grow from run to run)
 		{"bad-regex-nested", []scriptSrc{{"a.p", "add_key(k2, replace(message, \"(\", \"x\"))\np(\"never\")\n"}}, 0},
 		{"bad-regex-through-use", []scriptSrc{{"a.p", "p(\"a\")\nuse(\"b.p\")\n"}, {"b.p", "if true {\n  replace(message, \"(\", \"x\")\n}\n"}}, 0},
+		// an engine that keeps compiled queries: the answer for one document owes nothing to earlier ones
+		{"xml-group", []scriptSrc{{"a.p", "xml(message, \"(//b)[1]\", out)\nxml(message, \"(//b)[last()]\", out2)\nxml(message, \"(/a/b)[2]\", out3)\np(get_key(out), get_key(out2), get_key(out3))\n"}}, 0},
 		{"map-json", []scriptSrc{{"a.p", "j = load_json(\"{\\\"a\\\": [1, 2.5]}\")\nadd_key(j)\nadd_key(k2, j[\"a\"][1])\n"}}, 0},
 	}
 	points := []pointSpec{
@@ -112,6 +114,9 @@ func genC15(e *emitter, tier string, seed int64) {
 		pt := points[j]
 		if s.name == "sql" {
 			pt = sqlPoints[j%2]
+		}
+		if s.name == "xml-group" {
+			pt = pointSpec{Meas: "x", Time: int64(9 + j), Fields: []fieldSpec{{"message", "str", []string{"<a><b>one</b><b>two</b></a>", "<a><b>uno</b></a>", "<a><c/><b>eins</b><b>zwei</b><b>drei</b></a>"}[j%3]}}}
 		}
 		return runCase{Scripts: s.scripts, Entry: "a.p", Point: pt, SigK: s.sigK, HasSig: true}
 	}
